@@ -245,6 +245,12 @@ def build_request(tr, ix, api_level=False):
         elif k == "C":
             body += ["C", str(it["id"])]
         elif k == "D":
+            if it.get("units_pre") == 0:
+                # finding F36: with no units left the code books the flow and the unit count becomes NaN for the rest of the run — the model (which refuses the flow)
+                # has no NaN units; the run is outside the world's scope from here on
+                return None, "cash_flow_with_no_units_left(F36)"
+            if it.get("refused_by_portfolio"):
+                continue            # refused by the portfolio before any account was touched (no units left to convert the flow into): nothing entered the world
             days = it["days"]
             body += ["D", str(types.index(it["account"])), f2b(it["amount"]), str(int(days >= 1)), str(ix.next_day8(it["today"], days) if days >= 1 else 0)]
         elif k == "F":
